@@ -311,7 +311,7 @@ cfg_if! {
                 };
             }
             let zip_file = dir.join(zip_file_name);
-            return match std::fs::read(zip_file) {
+            return match std::fs::read(&zip_file) {
                 Err(e) => {
                     // no zip file? -- maybe started out with all the files unzipped? See if there is a .yaml file
                     match find_file_in_dir_that_ends_with_shim(dir, ".yaml") {
@@ -320,9 +320,15 @@ cfg_if! {
                     }
                 },
                 Ok(contents) => {
+                    // the file might be damaged (e.g., an incomplete copy) -- that is an error to report, not a reason to crash
                     let archive = std::io::Cursor::new(contents);
-                    let mut zip_archive = zip::ZipArchive::new(archive).unwrap();
-                    zip_archive.extract(dir).expect("Zip extraction failed");
+                    let mut zip_archive = match zip::ZipArchive::new(archive) {
+                        Ok(zip_archive) => zip_archive,
+                        Err(e) => bail!("Couldn't read zip file {}: {}", zip_file.display(), e),
+                    };
+                    if let Err(e) = zip_archive.extract(dir) {
+                        bail!("Zip extraction of {} failed: {}", zip_file.display(), e);
+                    }
                     Ok(true)
                 },
             };
